@@ -292,8 +292,10 @@ Proof.
       destruct (emit_head x p Ex ltac:(assumption)) as [c [p' [Ep Hc]]].
       assert (Hj : exists j', join_with [c_comma] (p :: ps) = c :: j').
       { subst p. destruct ps; simpl; eexists; reflexivity. }
-      destruct Hj as [j' Hj]. rewrite Hj. cbn [app]. apply N.eqb_neq in Hc. rewrite Hc.
-      rewrite <- Hj. rewrite <- app_assoc. cbn [app].
+      destruct Hj as [j' Hj]. apply N.eqb_neq in Hc.
+      match goal with |- context [parse_elems _ _ ?J] => remember J as JJ eqn:EJ end.
+      assert (HJ : JJ = c :: (j' ++ [c_rbrack]) ++ rest) by (rewrite EJ, Hj; reflexivity).
+      rewrite HJ. rewrite Hc. rewrite <- HJ. rewrite EJ. rewrite <- app_assoc. cbn [app].
       rewrite (parse_elems_join f (x :: l) (p :: ps) R); [reflexivity|discriminate|].
       simpl in Hf. rewrite app_length in Hf. simpl in Hf. simpl in *. lia.
   - simpl in H. unfold wrap in H.
@@ -313,11 +315,34 @@ Proof.
       { constructor; [exists body; split; assumption|exact Rt]. }
       assert (Hj : exists j', join_with [c_comma] (p :: ps) = c_quote :: j').
       { subst p. unfold str_text. destruct ps; simpl; eexists; reflexivity. }
-      destruct Hj as [j' Hj]. rewrite Hj. cbn [app]. change (c_quote =? 125) with false. cbn iota.
-      rewrite <- Hj. rewrite <- app_assoc. cbn [app].
+      destruct Hj as [j' Hj].
+      match goal with |- context [parse_members _ _ ?J] => remember J as JJ eqn:EJ end.
+      assert (HJ : JJ = c_quote :: (j' ++ [c_rbrace]) ++ rest) by (rewrite EJ, Hj; reflexivity).
+      rewrite HJ. change (c_quote =? 125) with false. cbn iota. rewrite <- HJ. rewrite EJ. rewrite <- app_assoc. cbn [app].
       rewrite (parse_members_join f (kv :: m) _ R); [reflexivity|discriminate|].
       simpl in Hf. rewrite app_length in Hf. simpl in Hf. simpl in *. lia.
 Qed.
 
+Lemma nums_wf_sort_deep : forall v, nums_wf v -> nums_wf (sort_deep v).
+Proof.
+  induction v as [|b|z|r|s|l IH|m IH] using jvalue_nested_ind; intro C; try exact C.
+  - simpl. constructor. inversion C; subst. rewrite Forall_map. rewrite Forall_forall in *. intros x Hx. apply IH; auto.
+  - simpl. constructor. inversion C as [| | | | | |m0 Cm]; subst.
+    rewrite Forall_forall in *. intros kv Hkv. apply (proj1 (spec_sort_In _ _ _)) in Hkv.
+    apply in_map_iff in Hkv. destruct Hkv as [kv0 [E Hin]]. subst kv. simpl. apply IH; auto.
+Qed.
+
 Lemma canon_parse_proof : forall v t, canon v = JOk t -> nums_wf v -> parse_json t = Some (json_of v).
-Proof. Abort.
+Proof.
+  intros v t H W. apply canon_emit_ok_proof in H.
+  pose proof (parse_emit (sort_deep v) t H (nums_wf_sort_deep v W) (S (length t)) (Nat.lt_succ_diag_r _) [] I) as P.
+  rewrite app_nil_r in P. unfold parse_json. rewrite P. reflexivity.
+Qed.
+
+(* the canonical text determines the JSON value *)
+Lemma canon_injective_proof : forall v w t, canon v = JOk t -> canon w = JOk t -> nums_wf v -> nums_wf w ->
+  json_of v = json_of w.
+Proof.
+  intros v w t Hv Hw Wv Ww. pose proof (canon_parse_proof v t Hv Wv) as Pv.
+  pose proof (canon_parse_proof w t Hw Ww) as Pw. rewrite Pv in Pw. inversion Pw. reflexivity.
+Qed.
